@@ -824,3 +824,50 @@ pub struct Outcome {
 pub fn now() -> Instant {
     Instant::now()
 }
+
+// ------------------------------------------------------------------------------------------------
+// Log sink. The library logs through the `log` facade; its macros evaluate their arguments only when the global level
+// admits the record, so code inside a log statement runs or not depending on the process's log level. Checks run with
+// a Trace-level sink that formats every record (Display paths executed, side effects of arguments happen) unless
+// FDMON_LOG=off (the thorough tier's second leg).
+
+pub static LOG_RECORDS: std::sync::atomic::AtomicU64 = std::sync::atomic::AtomicU64::new(0);
+pub static LOG_BYTES: std::sync::atomic::AtomicU64 = std::sync::atomic::AtomicU64::new(0);
+static LOGGING_ON: std::sync::atomic::AtomicBool = std::sync::atomic::AtomicBool::new(false);
+
+struct Sink;
+
+struct CountWriter(u64);
+
+impl std::fmt::Write for CountWriter {
+    fn write_str(&mut self, s: &str) -> std::fmt::Result {
+        self.0 += s.len() as u64;
+        Ok(())
+    }
+}
+
+impl log::Log for Sink {
+    fn enabled(&self, _: &log::Metadata<'_>) -> bool {
+        true
+    }
+    fn log(&self, record: &log::Record<'_>) {
+        let mut w = CountWriter(0);
+        let _ = std::fmt::write(&mut w, *record.args());
+        LOG_RECORDS.fetch_add(1, Ordering::Relaxed);
+        LOG_BYTES.fetch_add(w.0, Ordering::Relaxed);
+    }
+    fn flush(&self) {}
+}
+
+static SINK: Sink = Sink;
+
+pub fn install_log_sink() {
+    if log::set_logger(&SINK).is_ok() {
+        log::set_max_level(log::LevelFilter::Trace);
+        LOGGING_ON.store(true, Ordering::Relaxed);
+    }
+}
+
+pub fn logging_on() -> bool {
+    LOGGING_ON.load(Ordering::Relaxed)
+}
